@@ -102,7 +102,9 @@ def dispatcher(R, prog):
     CNT = cnts[0]
     tasks = K.local_names_init_by(f, lambda e, i: e['k'] == 'call' and strip_targs(e.get('fn') or '').endswith('::recv'))
     R.require(len(tasks) >= 1, 'C08: main_loop no longer stores the result of ring->recv in a local')
-    inc = lambda ev: ev.kind == 'binop' and ev.e['op'] == '=' and (ev.path(ev.e['l']) or '') == CNT and '+ 1' in ev.show(ev.e['r'])
+    inc = lambda ev: (ev.kind == 'binop' and ev.e['op'] == '=' and (ev.path(ev.e['l']) or '') == CNT and '+ 1' in ev.show(ev.e['r'])) or \
+        (ev.kind == 'binop' and ev.e['op'] == '+=' and (ev.path(ev.e['l']) or '') == CNT and ev.f.const(ev.e['r']) == 1) or \
+        (ev.kind == 'unop' and ev.e['op'] == '++' and (ev.path(ev.e['sub']) or '') == CNT)
     seen = an.SeenTracker([('created', created), ('yielded', yielded, ('created',)), ('inc', inc), ('recv', recv, ('inc',)),
                            ('reg', lambda ev: ev.kind == 'call' and ev.callee() == IMPL + '::add_vcpu')])
     res = an.run(G, [seen, an.GuardTracker(lambda k: True)])
